@@ -4,11 +4,22 @@
 import SplVerif.Props.C06
 import SplVerif.Props.C18
 import SplVerif.Model.Table
+import SplVerif.Props.C07
 
 namespace Spl.C02
 
 /-- Lexing never panics, whatever the text (from C06). -/
 theorem lex_never_panics (s : List Char) : ∃ ts, lex s = .ok ts := C06.lex_total s
+
+/-- Incremental lexing never panics either: for every old text, every change on character
+    boundaries and every replacement (in particular `shift_token` never underflows and the slice at
+    the re-lex start is always on a character boundary), from C07. -/
+theorem lex_update_never_panics (pre mid ins post : List Char) (old : List Token)
+    (hold : lex (pre ++ mid ++ post) = .ok old) :
+    ∃ new ch, lexUpdate (pre ++ ins ++ post) old (utf8Len pre) (utf8Len pre + utf8Len mid) (utf8Len ins) =
+      .ok (new, ch) := by
+  obtain ⟨new, ch, h, _⟩ := C07.update_eq_lex pre mid ins post old hold
+  exact ⟨new, ch, h⟩
 
 /-- Every request that reaches a live server is answered exactly once (from C18's machine). -/
 theorem one_response (p : Rpc.Phase) (id : Int) (m : String) :
